@@ -61,7 +61,7 @@ def afill (B : Nat) (a : ARd) : ARd :=
 
 /-- `ReadSlice('\n')`: the line is a view. -/
 def areadSliceLoop (B : Nat) : Nat → ARd → (View × Option RErr) × ARd
-  | 0, a => ((⟨0, 0⟩, some .stuck), a)
+  | 0, a => ((⟨a.pre.length, 0⟩, some .stuck), a)
   | f + 1, a =>
     match cutNL a.rd.buf with
     | some (line, _) => ((⟨a.pre.length, line.length⟩, none), consume line.length a)
